@@ -110,12 +110,61 @@ def _split_top(s: str) -> list:
     return out
 
 
-def _shape_of(test: ast.AST) -> str:
-    t = unparse(test)
-    for k in ("CIRCLE", "RECT", "ELIP"):
-        if k in t:
-            return k
-    return ""
+def _enum_ref(P, mod, e: ast.AST):
+    r = P.resolve_expr_entity(mod, e) if isinstance(e, (ast.Attribute, ast.Name)) else None
+    return (r[1].name, r[2]) if isinstance(r, tuple) and r[0] == "enum" else None
+
+
+def _membership(P, mod, node: ast.AST, var: str):
+    """Set of enum members M such that `node` states `var in M` (==, in, or-combinations); None for other conditions."""
+    if isinstance(node, ast.BoolOp) and isinstance(node.op, ast.Or):
+        out = set()
+        for v in node.values:
+            m = _membership(P, mod, v, var)
+            if m is None:
+                return None
+            out |= m
+        return out
+    if isinstance(node, ast.Compare) and len(node.ops) == 1:
+        a, b, op = node.left, node.comparators[0], node.ops[0]
+        if isinstance(op, ast.In) and isinstance(a, ast.Name) and a.id == var and isinstance(b, (ast.Tuple, ast.List, ast.Set)):
+            ms = [_enum_ref(P, mod, e) for e in b.elts]
+            return set(ms) if ms and all(ms) else None
+        if isinstance(op, ast.Eq):
+            for x, y in ((a, b), (b, a)):
+                if isinstance(x, ast.Name) and x.id == var and _enum_ref(P, mod, y):
+                    return {_enum_ref(P, mod, y)}
+    return None
+
+
+def _shape_exits(ctx, fi: FuncInfo, var: str) -> list:
+    """[(shape | None, set of enum members | None, return stmt, state)] for every `return` of a per-shape function:
+    the shape is read off the guard facts of the exit (the members `var` is known to be among); None = default exit."""
+    P = ctx.prog
+    fl = ctx.flows.get(fi)
+    out = []
+    for k, s, st in fl.exits:
+        if k != "return" or s.value is None:
+            continue
+        members = None
+        for f in st.facts:
+            if f.kind == "cond" and f.pol:
+                m = _membership(P, fi.module, f.node, var)
+                if m is not None:
+                    members = m if members is None else (members & m)
+        shape = None
+        if members:
+            kinds = {name.rsplit("_", 1)[-1] for _, name in members}
+            shape = kinds.pop() if len(kinds) == 1 else "?"
+        out.append((shape, members, s, st))
+    return out
+
+
+def _poly_eq(P, mod, a: ast.AST, src: str) -> bool:
+    try:
+        return to_poly(P, mod, a, pretty) == to_poly(P, mod, ast.parse(src, mode="eval").body, pretty)
+    except Exception:
+        return False
 
 
 def shapes(ctx):
@@ -124,77 +173,110 @@ def shapes(ctx):
     fl = ctx.flows.get(fi)
     mod = fi.module
     ren = lambda s: pretty(s)
-    spec = {"CIRCLE": "1 - (X/area.a)**2 - (Y/area.a)**2",
-            "ELIP": "1 - (X/area.a)**2 - (Y/area.b)**2",
-            "RECT": "min(1 - (X/area.a)**2, 1 - (Y/area.b)**2)"}
-    found = set()
-    for node in ast.walk(fi.node):
-        if isinstance(node, ast.If) and _shape_of(node.test):
-            shape = _shape_of(node.test)
-            rets = [b for b in node.body if isinstance(b, ast.Return)]
-            if not rets:
-                continue
-            found.add(shape)
-            r = rets[0]
-            st = fl.state_at(r)
-            raw = r.value
-            # name the two projected distances X, Y: they are the components of calculate_distance(centre, point)
-            x = fl.expand(raw, st)
-            xt = pretty(unparse(x))
-            m = re.search(r"Router\.calculate_distance\((.*?)\)\[0\]", xt)
-            dist_args = m.group(1) if m else ""
-            sub = xt.replace(f"Router.calculate_distance({dist_args})[0]", "X").replace(f"Router.calculate_distance({dist_args})[1]", "Y")
-            try:
-                got = to_poly(P, mod, ast.parse(sub, mode="eval").body, ren)
-                want = to_poly(P, mod, ast.parse(spec[shape], mode="eval").body, ren)
-                same = repr(got) == repr(want)
-            except SyntaxError:
-                same, got, want = False, sub, spec[shape]
-            loc = f"{mod.rel}:{r.lineno}"
-            ctx.ob("C07.shape-formula", fi.short(), f"{shape}:formula", same,
-                   f"F for {shape} is `{sub[:100]}`" + ("" if same else f"; EN 302 931 gives `{spec[shape]}` (X, Y = distances "
-                                                                       f"of the point from the centre along the axes)"), loc)
-            both = [shape in unparse(node.test) and "GeoBroadcastHST" in unparse(node.test), "GeoAnycastHST" in unparse(node.test)]
-            ctx.ob("C07.shape-formula", fi.short(), f"{shape}:both-transports", all(both),
-                   "branch covers the GBC and the GAC sub-type of the shape", loc)
-            centre_ok = norm(dist_args).startswith("(area.latitude/10000000,area.longitude/10000000),(lat/10000000,lon/10000000)")
-            ctx.ob("C07.shape-formula", fi.short(), f"{shape}:inputs", centre_ok,
-                   f"distances are taken between the area centre and the point (`{dist_args[:90]}`)", loc)
-            uses_angle = "area.angle" in xt
-            if shape == "CIRCLE":
-                continue        # a circle is rotation invariant
-            ctx.ob("C07.uses-all-params", fi.short(), f"{shape}:angle", uses_angle,
-                   f"F for {shape} " + ("uses the azimuth angle" if uses_angle else
-                                        "never reads area.angle: a rotated rectangle/ellipse is evaluated as if its azimuth were 0 "
-                                        "(transform_distance_angle exists but has no caller)"), loc)
-    if found != {"CIRCLE", "RECT", "ELIP"}:
-        raise AnalysisError(f"C07: shape branches found {sorted(found)}")
-    # distance projection: sign conventions and axes
+    if len(fi.params) != 5:
+        raise AnalysisError("C07: gn_geometric_function_f no longer takes (shape, area, lat, lon)")
+    p_type, p_area, p_lat, p_lon = fi.params[1:5]
+    spec = {"CIRCLE": f"1 - (X/{p_area}.a)**2 - (Y/{p_area}.a)**2",
+            "ELIP": f"1 - (X/{p_area}.a)**2 - (Y/{p_area}.b)**2",
+            "RECT": f"min(1 - (X/{p_area}.a)**2, 1 - (Y/{p_area}.b)**2)"}
     cd = P.func(f"{ROUTER}.calculate_distance")
-    src = norm(unparse(cd.node))
-    ctx.ob("C07.shape-formula", cd.short(), "returns-x-y", "returnx_distance,y_distance" in src.replace("(", "").replace(")", ""),
-           "calculate_distance returns (x, y)", cd.loc)
+    found = set()
+    mixed = False
+    for shape, members, r, st in _shape_exits(ctx, fi, p_type):
+        if shape == "?":
+            mixed = True
+            ctx.ob("C07.shape-formula", fi.short(), f"mixed-branch:{'+'.join(sorted(n_ for _, n_ in members))[:60]}", False,
+                   f"one formula serves sub-types of different shapes: {sorted(members)}", f"{mod.rel}:{r.lineno}")
+            continue
+        if shape not in spec:
+            continue
+        found.add(shape)
+        # name the two projected distances X, Y: they are the components of calculate_distance(centre, point)
+        x = fl.expand(r.value, st)
+        dist_calls = []
+
+        class XY(ast.NodeTransformer):
+            def visit_Subscript(self, n):
+                v = n.value
+                if isinstance(v, ast.Call) and P.resolve_expr_entity(mod, v.func) is cd and isinstance(n.slice, ast.Constant) \
+                        and n.slice.value in (0, 1):
+                    dist_calls.append(v)
+                    return ast.Name(id="XY"[n.slice.value], ctx=ast.Load())
+                return self.generic_visit(n)
+        sub_node = XY().visit(x)
+        sub = pretty(unparse(sub_node))
+        try:
+            same = to_poly(P, mod, sub_node, ren) == to_poly(P, mod, ast.parse(spec[shape], mode="eval").body, ren)
+        except Exception:
+            same = False
+        loc = f"{mod.rel}:{r.lineno}"
+        ctx.ob("C07.shape-formula", fi.short(), f"{shape}:formula", same,
+               f"F for {shape} is `{sub[:100]}`" + ("" if same else f"; EN 302 931 gives `{spec[shape]}` (X, Y = distances "
+                                                                   f"of the point from the centre along the axes)"), loc)
+        both = members == {("GeoBroadcastHST", f"GEOBROADCAST_{shape}"), ("GeoAnycastHST", f"GEOANYCAST_{shape}")}
+        ctx.ob("C07.shape-formula", fi.short(), f"{shape}:both-transports", both,
+               "branch covers the GBC and the GAC sub-type of the shape" if both else
+               f"branch is taken for {sorted(members or [])}: must be exactly the GBC and the GAC sub-type of {shape}", loc)
+        centre_ok = bool(dist_calls)
+        for c in dist_calls:
+            amap = G.bind_args(cd, c) or {}
+            a0, a1 = amap.get(cd.params[0]), amap.get(cd.params[1])
+            if not (isinstance(a0, ast.Tuple) and isinstance(a1, ast.Tuple) and len(a0.elts) == 2 and len(a1.elts) == 2
+                    and _poly_eq(P, mod, a0.elts[0], f"{p_area}.latitude/10000000") and _poly_eq(P, mod, a0.elts[1], f"{p_area}.longitude/10000000")
+                    and _poly_eq(P, mod, a1.elts[0], f"{p_lat}/10000000") and _poly_eq(P, mod, a1.elts[1], f"{p_lon}/10000000")):
+                centre_ok = False
+        shown = pretty(unparse(dist_calls[0]))[:90] if dist_calls else "<no distance call>"
+        ctx.ob("C07.shape-formula", fi.short(), f"{shape}:inputs", centre_ok,
+               f"distances are taken between the area centre and the point (`{shown}`)", loc)
+        uses_angle = any(isinstance(n, ast.Attribute) and n.attr == "angle" and isinstance(n.value, ast.Name) and n.value.id == p_area
+                         for n in ast.walk(x))
+        if shape == "CIRCLE":
+            continue        # a circle is rotation invariant
+        ctx.ob("C07.uses-all-params", fi.short(), f"{shape}:angle", uses_angle,
+               f"F for {shape} " + ("uses the azimuth angle" if uses_angle else
+                                    "never reads area.angle: a rotated rectangle/ellipse is evaluated as if its azimuth were 0 "
+                                    "(transform_distance_angle exists but has no caller)"), loc)
+    if found != {"CIRCLE", "RECT", "ELIP"} and not mixed:
+        raise AnalysisError(f"C07: shape branches found {sorted(found)}")
+    # distance projection: the first component is the latitude (x) axis, the second the longitude (y) axis
+    cfl = ctx.flows.get(cd)
+    ok_xy = False
+    rets = [(s, st) for k, s, st in cfl.exits if k == "return"]
+    if len(rets) == 1 and isinstance(rets[0][0].value, ast.Tuple) and len(rets[0][0].value.elts) == 2 and len(cd.params) == 2:
+        s_, st_ = rets[0]
+
+        def comps(e):
+            out = set()
+            for n in ast.walk(cfl.expand(e, st_)):
+                if isinstance(n, ast.Subscript) and isinstance(n.value, ast.Name) and n.value.id in cd.params and \
+                        isinstance(n.slice, ast.Constant):
+                    out.add((n.value.id, n.slice.value))
+            return out
+        cx_, cy_ = comps(s_.value.elts[0]), comps(s_.value.elts[1])
+        ok_xy = cx_ == {(p_, 0) for p_ in cd.params} and {(p_, 1) for p_ in cd.params} <= cy_
+    ctx.ob("C07.shape-formula", cd.short(), "returns-x-y", ok_xy,
+           "calculate_distance returns (x, y)" if ok_xy else
+           "calculate_distance does not return (distance along latitude, distance along longitude) of its two coordinates", cd.loc)
     # area size
     az = P.func(f"{ROUTER}._compute_area_size_m2")
-    fl = ctx.flows.get(az)
-    want = {"CIRCLE": "math.pi*area.a*area.a", "ELIP": "math.pi*area.a*area.b"}
+    afl = ctx.flows.get(az)
+    a_type, a_area = az.params[0], az.params[1]
+    want = {"CIRCLE": f"math.pi*{a_area}.a*{a_area}.a", "ELIP": f"math.pi*{a_area}.a*{a_area}.b", "RECT": f"4*{a_area}.a*{a_area}.b"}
     seen = set()
-    for node in ast.walk(az.node):
-        if isinstance(node, ast.If) and _shape_of(node.test):
-            shape = _shape_of(node.test)
-            r = [b for b in node.body if isinstance(b, ast.Return)][0]
-            got = to_poly(P, az.module, r.value, ren)
-            w = to_poly(P, az.module, ast.parse(want[shape], mode="eval").body, ren)
-            seen.add(shape)
-            ctx.ob("C07.size-control", az.short(), f"{shape}:area", repr(got) == repr(w),
-                   f"area of {shape} = `{unparse(r.value)}` (must equal {want[shape]})", f"{az.module.rel}:{r.lineno}")
-    last = [b for b in az.node.body if isinstance(b, ast.Return)]
-    if last:
-        got = to_poly(P, az.module, last[-1].value, ren)
-        w = to_poly(P, az.module, ast.parse("4*area.a*area.b", mode="eval").body, ren)
-        ctx.ob("C07.size-control", az.short(), "RECT:area", repr(got) == repr(w),
-               f"area of RECT = `{unparse(last[-1].value)}` (must equal 4*a*b: a, b are half side lengths)", f"{az.module.rel}:{last[-1].lineno}")
-    ctx.floor("C07.shape-formula", 9)
+    for shape, members, r, st in _shape_exits(ctx, az, a_type):
+        shape = shape or "RECT"        # the default exit serves the remaining shape
+        if shape not in want or shape in seen:
+            continue
+        seen.add(shape)
+        val = afl.expand(r.value, st)
+        ok = _poly_eq(P, az.module, val, want[shape])
+        ctx.ob("C07.size-control", az.short(), f"{shape}:area", ok,
+               f"area of {shape} = `{pretty(unparse(val))}` (must equal {want[shape]}" +
+               (": a, b are half side lengths)" if shape == "RECT" else ")"), f"{az.module.rel}:{r.lineno}")
+    for shape in want:
+        if shape not in seen:
+            ctx.ob("C07.size-control", az.short(), f"{shape}:area", False, f"no area formula for {shape}", az.loc)
+    ctx.floor("C07.shape-formula", 10)
 
 
 def _strip_cast(e: ast.AST) -> ast.AST:
